@@ -14,6 +14,7 @@ from . import shrink as shrink_mod
 from . import c11_world as W
 from . import c15_world as CW
 from . import c15_gen as G
+from . import c11_docs as D
 
 PROP = 'C15'
 TIMEOUT = 30.0
@@ -108,6 +109,8 @@ class Judge:
             reach.append('text_over_64k_chars')
         if len(set(names)) < len(names):
             reach.append('same_path_twice')
+        if scn.get('shape') == 'cross_file':
+            reach.append('file_pair_sharing_a_cache_key')
         if knobs.get('r_spelling') and not (rid == 'Html' and knobs.get('omit_r')):
             sp = CW.spellings(rid)
             if sp[knobs['r_spelling'] % len(sp)] != sp[0]:
@@ -346,6 +349,39 @@ def shape_scenarios(corp, tier):
                         'seed': idx, 'batch': 'shapes', 'index': idx, 'cli_only': True, 'shape': 'small_then_large',
                         'knobs': {'bufsize': 8192, 'read_chunk': 8192, 'write_chunk': [8192, 4096, 64][j], 'out_bufsize': [8192, 8192, 512][(i + j) % 3],
                                   'locale': 'utf-8', 'stdout_encoding': 'utf-8', 'entry': ['cli.main', '__main__'][(i + j) % 2], 'omit_r': False}})
+    # one invocation, several files: the output for file k must be what the library gives for text k ON ITS OWN, whatever
+    # the files before it contained. File pairs that agree on something state could be keyed by but must render differently
+    # (same-key families: every ordered pair under every renderer) and the same context-sensitive atom in two syntactic
+    # positions (every ordered pair of positions per atom, renderer rotating; thorough: three renderers each).
+    for fam in sorted(D.SAMEKEY_FAMILIES):
+        docs = [d for d in D.SAMEKEY_FAMILIES[fam] if CW.in_domain(d)]
+        for a in range(len(docs)):
+            for b in range(len(docs)):
+                if a == b:
+                    continue
+                for rid in W.BUNDLED_IDS:
+                    idx += 1
+                    out.append({'R': rid, 'texts': [docs[a], docs[b]], 'names': ['f0.md', 'f1.md'], 'fault': None,
+                                'seed': idx, 'batch': 'shapes', 'index': idx, 'cli_only': True, 'shape': 'cross_file',
+                                'knobs': {'bufsize': 8192, 'read_chunk': 8192, 'write_chunk': 8192, 'out_bufsize': [8192, 64][idx % 2],
+                                          'locale': 'utf-8', 'stdout_encoding': 'utf-8', 'entry': ['cli.main', '__main__'][idx % 2], 'omit_r': False}})
+    positions = sorted(D.ATOM_POSITIONS)
+    n_r = 3 if tier == 'thorough' else 1
+    for ai in range(len(D.ATOMS)):
+        for pa in positions:
+            for pb in positions:
+                if pa == pb:
+                    continue
+                da, db = D.ATOM_PROBES['atom%d_%s' % (ai, pa)], D.ATOM_PROBES['atom%d_%s' % (ai, pb)]
+                if not (CW.in_domain(da) and CW.in_domain(db)):
+                    continue
+                for r in range(n_r):
+                    idx += 1
+                    rid = W.BUNDLED_IDS[(idx + r * 3) % len(W.BUNDLED_IDS)]
+                    out.append({'R': rid, 'texts': [da, db], 'names': ['f0.md', 'f1.md'], 'fault': None,
+                                'seed': idx, 'batch': 'shapes', 'index': idx, 'cli_only': True, 'shape': 'cross_file',
+                                'knobs': {'bufsize': 8192, 'read_chunk': 8192, 'write_chunk': 8192, 'out_bufsize': 8192,
+                                          'locale': 'utf-8', 'stdout_encoding': 'utf-8', 'entry': ['cli.main', '__main__'][idx % 2], 'omit_r': False}})
     # every dotted path under which -r reaches each renderer class (old aliases, package-level re-exports, names imported
     # into other modules): one and two files, both entry points, each argv shape in turn
     for rid in W.BUNDLED_IDS:
